@@ -80,6 +80,10 @@ pub struct NodeSnapshot {
     pub control: usize,
     /// Address the helping reader loads from.
     pub active_addr: usize,
+    /// The hand-over envelope this node currently owns.
+    pub space_offer: usize,
+    /// Address of the envelope embedded in this node.
+    pub own_envelope: usize,
 }
 
 /// The value of an empty debt slot.
